@@ -49,10 +49,11 @@ static const op_t ops_table[] = {
     { K_SET, ".a=2", NULL },
     { K_SET, "a.b=1", NULL },
     { K_SET, "a.a=", NULL },
-    { K_SET, "a b=3", NULL },
+    { K_SET, "a b =3", NULL },	/* unquoted trailing space is not key */
     { K_SET, "x\\.y=4", NULL },
     { K_SET, "\xc3\xa9=5", NULL },
     { K_SET, "\\1-x= #v", NULL },
+    { K_SET, "\\.\\.z =6", NULL },	/* two quoted characters, unquoted space */
     { K_SET, "[0]=1", NULL },
     { K_SET, "[1]=a\nb", NULL },
     { K_SET, "[2]=2", NULL },
@@ -136,9 +137,14 @@ static const char *const qsym[] = {
 };
 #define NQSYM 14
 #define NVCBLOCK 2
+#define NSCALE 2
 
-static int nops(int tier) { (void)tier; return NMOD + NQSYM + NVCBLOCK; }
-static int maxdepth(int tier) { return tier ? 4 : 3; }
+static int nops(int tier)
+{
+    (void)tier;
+    return NMOD + NQSYM + NVCBLOCK + NSCALE;
+}
+static int maxdepth(int tier) { return tier ? 5 : 4; }
 
 static void op_name(int tier, int op, char *buf, size_t n)
 {
@@ -154,8 +160,11 @@ static void op_name(int tier, int op, char *buf, size_t n)
 	    snprintf(buf, n, "%s(%s)", kn[o->kind], pm_show(o->a));
     } else if (op < NMOD + NQSYM) {
 	snprintf(buf, n, "quote_key-block(first=%s)", pm_show(qsym[op - NMOD]));
-    } else {
+    } else if (op < NMOD + NQSYM + NVCBLOCK) {
 	snprintf(buf, n, "vnacal_property-block(%d)", op - NMOD - NQSYM);
+    } else {
+	snprintf(buf, n, "scale-block(%s)", op - NMOD - NQSYM - NVCBLOCK ?
+		"map" : "list");
     }
 }
 
@@ -165,7 +174,7 @@ static void op_name(int tier, int op, char *buf, size_t n)
 static const char *const observers[] = {
     /* well-formed */
     ".", "a", "b", "a.b", "a.a", "a.c", "a b", "x\\.y", "\xc3\xa9", "\\1-x",
-    "[0]", "[1]", "[2]", "[3]", "a[0]", "a[1]", "[0][1]", "[0][0]", "[0].a",
+    "\\.\\.z", "[0]", "[1]", "[2]", "[3]", "a[0]", "a[1]", "[0][1]", "[0][0]", "[0].a",
     "[1].c", "a[1].b", "b.x", "b[0]", "b[1]", "b[0][0]", "b[0][1]", "a.b[0]",
     "{}", "[]", "a{}", "a[]", "a.", ".a", "[0].", "[0]{}", "[1][]", "a.{}",
     ".[0]", "a.[0]", ".{}", ".[]", "zz", "a.zz.y",
@@ -885,6 +894,113 @@ static void run_vnacal_block(int block, vf_result *r)
     vf_outcome(r, "vnacal-block ok");
 }
 
+
+/* ------------------------------------------------------------------ */
+/* scale blocks: collections that cross the internal resize points     */
+/* ------------------------------------------------------------------ */
+static int both(vf_result *r, vnaproperty_t **root, pm_node **mroot, int del,
+	const char *fmt, ...)
+{
+    char arg[100];
+    va_list ap;
+    int rv, e, mrv, merr, loose;
+
+    va_start(ap, fmt);
+    vsnprintf(arg, sizeof(arg), fmt, ap);
+    va_end(ap);
+    errno = 0;
+    rv = del ? vnaproperty_delete(root, "%s", arg) :
+	vnaproperty_set(root, "%s", arg);
+    e = errno;
+    mrv = del ? pm_delete(mroot, arg, &merr) :
+	pm_set(mroot, arg, &merr, &loose);
+    check_rv(r, del ? "vnaproperty_delete" : "vnaproperty_set", arg, rv, e,
+	    mrv, merr);
+    ++r->transitions;
+    return r->status == VF_OK ? 0 : -1;
+}
+
+#define SCALE_LIST_MAX 34	/* vector allocation steps at 8, 16, 32 */
+#define SCALE_MAP_MAX 70	/* hash table grows at 21 and 65 keys */
+
+static void run_scale_block(int which, vf_result *r)
+{
+    pm_buf got = { 0 }, want = { 0 };
+    char why[900];
+    unsigned long mark = vf_exec_begin();
+    long steps = 0;
+
+    r->nontrivial = 1;
+    if (which == 0) {
+	vf_desc(r, "lists of every length n <= %d: insert at every position "
+		"p <= n, delete it again, delete element p, get [n], [n-1]",
+		SCALE_LIST_MAX);
+	for (int n = 0; n <= SCALE_LIST_MAX && r->status == VF_OK; ++n) {
+	    for (int p = 0; p <= n && r->status == VF_OK; ++p) {
+		vnaproperty_t *root = NULL;
+		pm_node *mroot = NULL;
+		int bad = 0;
+		if (n == 0)
+		    vnaproperty_set_subtree(&root, "[]"), mroot = pm_new('l');
+		for (int i = 0; i < n && !bad; ++i)
+		    bad = both(r, &root, &mroot, 0, "[+]=e%d", i);
+		if (!bad) bad = both(r, &root, &mroot, 0, "[%d+]=new", p);
+		if (!bad && same_tree(root, mroot, &got, &want, why,
+			    sizeof(why)) != 0) {
+		    vf_fail(r, "scale:list-insert", "list of %d, insert at %d: "
+			    "%s", n, p, why);
+		    bad = 1;
+		}
+		if (!bad) bad = both(r, &root, &mroot, 1, "[%d]", p);
+		if (!bad && p < n) bad = both(r, &root, &mroot, 1, "[%d]", p);
+		if (!bad) bad = both(r, &root, &mroot, 1, "[%d]", n);
+		if (!bad && same_tree(root, mroot, &got, &want, why,
+			    sizeof(why)) != 0) {
+		    vf_fail(r, "scale:list-delete", "list of %d, insert and "
+			    "delete at %d: %s", n, p, why);
+		    bad = 1;
+		}
+		vnaproperty_delete(&root, ".");
+		pm_free(mroot);
+		++steps;
+	    }
+	}
+    } else {
+	vnaproperty_t *root = NULL;
+	pm_node *mroot = NULL;
+	int bad = 0;
+	vf_desc(r, "map grown key by key to %d keys, every key deleted and "
+		"re-added at every size, then emptied", SCALE_MAP_MAX);
+	for (int n = 0; n < SCALE_MAP_MAX && !bad; ++n) {
+	    bad = both(r, &root, &mroot, 0, "key%d.v=%d", n * 7919 % 1000, n);
+	    for (int j = 0; j <= n && !bad; j += (n < 24 ? 1 : 5)) {
+		bad = both(r, &root, &mroot, 1, "key%d", j * 7919 % 1000);
+		if (!bad) bad = both(r, &root, &mroot, 1, "key%d",
+			j * 7919 % 1000);		/* now ENOENT */
+		if (!bad) bad = both(r, &root, &mroot, 0, "key%d.v=%d",
+			j * 7919 % 1000, j);
+		++steps;
+	    }
+	    if (!bad && same_tree(root, mroot, &got, &want, why,
+			sizeof(why)) != 0) {
+		vf_fail(r, "scale:map", "map of %d keys: %s", n + 1, why);
+		bad = 1;
+	    }
+	}
+	for (int n = 0; n < SCALE_MAP_MAX && !bad; n += 2)
+	    bad = both(r, &root, &mroot, 1, "key%d", n * 7919 % 1000);
+	if (!bad && same_tree(root, mroot, &got, &want, why, sizeof(why)) != 0)
+	    vf_fail(r, "scale:map", "after deleting every other key: %s", why);
+	vnaproperty_delete(&root, ".");
+	pm_free(mroot);
+    }
+    vf_exec_end(r, mark);
+    r->states = steps;
+    vf_outcome(r, "scale-block %s", which ? "map" : "list");
+    pm_buf_free(&got);
+    pm_buf_free(&want);
+}
+
 /* ------------------------------------------------------------------ */
 /* history runner                                                      */
 /* ------------------------------------------------------------------ */
@@ -916,7 +1032,7 @@ static void run_hist(int tier, const int *ops, int n, vf_result *r)
     unsigned long mark;
 
     (void)tier;
-    /* the two groups of stand-alone blocks */
+    /* the groups of stand-alone blocks */
     for (int i = 0; i < n; ++i) {
 	if (ops[i] >= NMOD) {
 	    r->prune = 1;
@@ -929,8 +1045,10 @@ static void run_hist(int tier, const int *ops, int n, vf_result *r)
 	    }
 	    if (ops[0] < NMOD + NQSYM)
 		run_quote_block(ops[0] - NMOD, r);
-	    else
+	    else if (ops[0] < NMOD + NQSYM + NVCBLOCK)
 		run_vnacal_block(ops[0] - NMOD - NQSYM, r);
+	    else
+		run_scale_block(ops[0] - NMOD - NQSYM - NVCBLOCK, r);
 	    return;
 	}
     }
